@@ -2,6 +2,7 @@ package system
 
 import (
 	"context"
+	"database/sql"
 	"errors"
 	"fmt"
 	"sync"
@@ -40,49 +41,8 @@ func (c *controllerFacade) handleState(ctx context.Context, dryRun bool, fn func
 
 	if err := withLock(ctx, ctrl, func(ctrl ledgercontroller.Controller, conn bun.IDB) error {
 
-		// todo: remove that in a later version
-		ret, err := tx.NewUpdate().
-			Model(&l).
-			Set("state = ?", ledger.StateInUse).
-			Where("id = ? and state = ?", l.ID, ledger.StateInitializing).
-			Exec(ctx)
-		if err != nil {
+		if err := markInUse(ctx, tx, l); err != nil {
 			return err
-		}
-
-		rowsAffected, err := ret.RowsAffected()
-		if err != nil {
-			return err
-		}
-
-		if rowsAffected > 0 {
-			_, err := tx.NewRaw(
-				fmt.Sprintf(`
-					select setval(
-						'"%s"."transaction_id_%d"', 
-						(
-							select max(id) from "%s".transactions where ledger = '%s'
-						)::bigint
-					)
-				`, l.Bucket, l.ID, l.Bucket, l.Name),
-			).Exec(ctx)
-			if err != nil {
-				return fmt.Errorf("failed to update transactions sequence value: %w", err)
-			}
-
-			_, err = tx.NewRaw(
-				fmt.Sprintf(`
-					select setval(
-						'"%s"."log_id_%d"', 
-						(
-							select max(id) from "%s".logs where ledger = '%s'
-						)::bigint
-					)
-				`, l.Bucket, l.ID, l.Bucket, l.Name),
-			).Exec(ctx)
-			if err != nil {
-				return fmt.Errorf("failed to update logs sequence value: %w", err)
-			}
 		}
 
 		if err := fn(ctrl); err != nil {
@@ -109,6 +69,89 @@ func (c *controllerFacade) handleState(ctx context.Context, dryRun bool, fn func
 	}
 
 	return nil
+}
+
+// markInUse moves the ledger out of the initializing state and, when it does, brings the id
+// sequences in line with what an import may have inserted with explicit ids.
+// It must run inside tx, under the ledger lock.
+func markInUse(ctx context.Context, tx *bun.Tx, l ledger.Ledger) error {
+	// todo: remove that in a later version
+	ret, err := tx.NewUpdate().
+		Model(&l).
+		Set("state = ?", ledger.StateInUse).
+		Where("id = ? and state = ?", l.ID, ledger.StateInitializing).
+		Exec(ctx)
+	if err != nil {
+		return err
+	}
+
+	rowsAffected, err := ret.RowsAffected()
+	if err != nil {
+		return err
+	}
+
+	if rowsAffected > 0 {
+		_, err := tx.NewRaw(
+			fmt.Sprintf(`
+				select setval(
+					'"%s"."transaction_id_%d"', 
+					(
+						select max(id) from "%s".transactions where ledger = '%s'
+					)::bigint
+				)
+			`, l.Bucket, l.ID, l.Bucket, l.Name),
+		).Exec(ctx)
+		if err != nil {
+			return fmt.Errorf("failed to update transactions sequence value: %w", err)
+		}
+
+		_, err = tx.NewRaw(
+			fmt.Sprintf(`
+				select setval(
+					'"%s"."log_id_%d"', 
+					(
+						select max(id) from "%s".logs where ledger = '%s'
+					)::bigint
+				)
+			`, l.Bucket, l.ID, l.Bucket, l.Name),
+		).Exec(ctx)
+		if err != nil {
+			return fmt.Errorf("failed to update logs sequence value: %w", err)
+		}
+	}
+
+	return nil
+}
+
+// BeginTX hands a caller-owned transaction out (the atomic bulk uses one). Writes made through it
+// do not go through handleState, so the first-write transition is done here, in that transaction:
+// it is committed or rolled back together with the caller's writes.
+func (c *controllerFacade) BeginTX(ctx context.Context, options *sql.TxOptions) (ledgercontroller.Controller, *bun.Tx, error) {
+	ctrl, tx, err := c.Controller.BeginTX(ctx, options)
+	if err != nil {
+		return nil, nil, err
+	}
+
+	c.mu.RLock()
+	l := c.ledger
+	c.mu.RUnlock()
+
+	if l.State == ledger.StateInUse {
+		return ctrl, tx, nil
+	}
+
+	// transaction scoped lock: taken on the transaction itself, released when the caller
+	// commits or rolls back (the caller keeps using ctrl, which owns that transaction)
+	if _, _, _, err := ctrl.LockLedger(ctx); err != nil {
+		_ = ctrl.Rollback(ctx)
+		return nil, nil, fmt.Errorf("failed to lock ledger: %w", err)
+	}
+	if err := markInUse(ctx, tx, l); err != nil {
+		_ = ctrl.Rollback(ctx)
+		return nil, nil, err
+	}
+
+	return ctrl, tx, nil
 }
 
 func (c *controllerFacade) CreateTransaction(ctx context.Context, parameters ledgercontroller.Parameters[ledgercontroller.CreateTransaction]) (*ledger.Log, *ledger.CreatedTransaction, bool, error) {
